@@ -424,6 +424,37 @@ theorem add_r32_r32_value (hh : HasHooks) (i : Instr) (s : Machine) (d sr : Fin 
     simp only [SZP, NO_WRITEBACK, FLAG_SF, FLAG_ZF, FLAG_PF]; decide
   simp only [hnw, if_true, ExecRes.ofOut, writeRM, writeReg32_fit, hres]
 
+/-! ## … and an 8-bit form: the other 56 bits of the destination survive -/
+
+theorem lookup_mov8 : lookup "Mov_rm8_r8" = some (.rmR 8 8 .mov U 0) := by decide +kernel
+
+theorem low8_value (x : BitVec 64) : (((x &&& 0xFF#64).setWidth 8).setWidth 64) = x &&& 0xFF#64 := by bv_decide
+theorem low8_mov (y : BitVec 64) :
+    ((((((y &&& 0xFF#64).setWidth 8).setWidth 64).setWidth 8).setWidth 8).setWidth 64) = y &&& 0xFF#64 := by bv_decide
+
+/-- **MOV r8, r8 (low-byte registers), end to end**: the destination's low byte becomes the source's low byte; the other
+    56 bits of the destination register, every other register and the flags are untouched. -/
+theorem mov_r8_r8 (hh : HasHooks) (i : Instr) (s : Machine) (d sr : Fin 16) (hc : i.code = "Mov_rm8_r8")
+    (hops : instructionOperands2 i = .ok (.register (.g8 d), .register (.g8 sr))) :
+    exec hh i s = .ok { s with regs := s.regs.set d ((s.regs.get d &&& 0xFFFFFFFFFFFFFF00#64) ||| (s.regs.get sr &&& 0xFF#64)) } := by
+  have hrow : lookup i.code = some (.rmR 8 8 .mov U 0) := by rw [hc]; exact lookup_mov8
+  unfold exec
+  simp only [hrow, calcRmR, hops, AxOperand.toReg, readReg, regReadW, regRead8, readRM, finish, setFlagsW]
+  have happ : applyOp2 .mov (s.rflags &&& FLAG_CF != 0) 8 8
+      (((s.regs.get d &&& 0xFF#64).setWidth 8).setWidth 64) (((s.regs.get sr &&& 0xFF#64).setWidth 8).setWidth 64) =
+      (s.regs.get sr &&& 0xFF#64, 0) := by
+    simp only [applyOp2, Prod.mk.injEq, and_true]
+    exact low8_mov _
+  rw [happ]
+  have hu : U ||| (0 : BitVec 64) = FLAGS_UNAFFECTED := by simp [U]
+  have hnw : (U &&& NO_WRITEBACK == 0) = true := by simp only [U, FLAGS_UNAFFECTED, NO_WRITEBACK]; decide
+  have hfit : ¬ 0xFF < (s.regs.get sr &&& 0xFF#64).toNat := by
+    have : (s.regs.get sr &&& 0xFF#64).toNat ≤ 0xFF := by
+      rw [BitVec.toNat_and]
+      exact Nat.and_le_right
+    omega
+  simp only [hu, C02.unaffected_kept, hnw, if_true, writeRM, writeReg, regWriteW, regWrite8, hfit, if_false, ExecRes.ofOut]
+
 /-! non-vacuity: a decoded `add rbx, rcx` meets the hypotheses -/
 def addRbxRcx : Instr := { code := "Add_rm64_r64", mnem := "Add", len := 3, nextIp := 0x1003#64, ops := [.reg (.reg (.g64 3)), .reg (.reg (.g64 1))] }
 example : instructionOperands2 addRbxRcx = .ok (.register (.g64 3), .register (.g64 1)) := by rfl
